@@ -19,7 +19,7 @@ CLAIM = {
  'design_ref': 'DESIGN.md section 6 C13',
 }
 
-RULE = ('files: random abstract content (1..4 passes, 1..20 distinct channel names, 0..~2500 frames, block size 1..64 '
+RULE = ('files: random abstract content (1..4 passes, plus files of 5..30 and 100+ pairwise different passes incl. exactly 10/11/12/20/21/101 compared POSITIONALLY (i-th frame array returned == i-th pass written, ident == str(i)), 9/10/11/19/20 channels, 100..1200 one-frame blocks, ~10000 frames, 1..20 distinct channel names, 0..~2500 frames, block size 1..64 '
         'frames incl. short last block and block size > frame count, IBM words from a mix of realistic values, zeros, '
         'negative zero, extreme exponents, unnormalised and random words, up and down logs, header spacing of either sign) encoded by the Lean spec '
         'encoder, decoded by the model and by ReadBIT; a file is non-trivial when it has >= 2 frames and >= 1 non-zero '
@@ -467,6 +467,28 @@ def stream_files(ctx, R):
             p['names'] = [n_.encode() for n_ in REAL_NAMES[:10]]; p['filler'] = b' ' * 40; p['fib'] = 16; p['n'] = n
             p['chans'] = [[gen_word(rng) for _ in range(n)] for _ in range(10)]
         cases.append(ps)
+    # many log passes: the reader numbers them with decimal strings, so cross 10 / 11 / 20 / 21 / 100 / 101 passes
+    # (every pass differs from the others at least in its 72-byte description, frame count and data; the oracle is positional)
+    many = [11, 12, 21, 10, 13, 20, 30, rng.randint(5, 30), rng.randint(5, 30), rng.randint(22, 30), 101, rng.randint(100, 130)]
+    many += [rng.randint(1, 30) for _ in range(ctx.n(10, 120))] + [rng.randint(100, 260) for _ in range(ctx.n(0, 6))]
+    for k in many:
+        ps = [gen_pass(rng, 'tiny' if k > 30 or rng.random() < 0.7 else 'small') for _ in range(k)]
+        for j, p in enumerate(ps):               # make neighbours and decimal look-alikes (1/10/11, 2/20/21) differ visibly
+            p['desc'] = (f'PASS {j:05d} OF {k:05d} '.encode('ascii') + p['desc'])[:72]
+        cases.append(ps)
+        ctx.nontriv(('many_passes', k))
+    # other counts past their thresholds: 9/10/11/19/20 channels, >= 100 and >= 1000 blocks, 9999/10000/10001 frames
+    for nch in (9, 10, 11, 19, 20):
+        p = gen_pass(rng, 'small'); n = rng.randint(2, 30)
+        p['names'] = gen_names(rng, nch); p['filler'] = b' ' * (4 * (20 - nch)); p['n'] = n
+        p['chans'] = [[gen_word(rng) for _ in range(n)] for _ in range(nch)]
+        cases.append([p]); ctx.nontriv(('channels', nch))
+    for n, fib, nch in [(101, 1, 2), (1001, 1, 1), (1200, 1, 3), (rng.choice([9999, 10000, 10001]), rng.choice([1, 16, 100]), 1)] + \
+                       ([(9999, 16, 2), (10000, 1, 1), (10001, 100, 1), (100001, 1000, 1)] if ctx.tier == 'thorough' else []):
+        p = gen_pass(rng, 'tiny')
+        p['names'] = gen_names(rng, nch); p['filler'] = b' ' * (4 * (20 - nch)); p['n'] = n; p['fib'] = fib
+        p['chans'] = [[gen_word(rng) for _ in range(n)] for _ in range(nch)]
+        cases.append([p, gen_pass(rng, 'tiny')]); ctx.nontriv(('blocks', n, fib))
     files = [bytes.fromhex(r) if r != '-' else b'' for r in ctx.lean([enc_line(ps) for ps in cases])]
     dec = ctx.lean(['dec ' + hx(f) for f in files])
     for ps, data, m in zip(cases, files, dec):
